@@ -8,6 +8,7 @@ bounded descending slice. Tied to the Go code by the differential run (state com
 after every operation, every link of the real pointer structure checked).
 -/
 import SamVerif.Proofs.Hotkey
+import SamVerif.Gen.Hotkey
 namespace SamVerif.Props.C19
 open SamVerif.Hotkey SamVerif.Proofs.Hotkey
 
@@ -230,10 +231,415 @@ theorem evictStaleOld_counterexample :
   · decide
   · unfold Desc; decide
 
+/-! ### the bounded insert keeps the order, lists nothing twice; the report over any number of periods -/
+
+theorem take_len_takeWhile (p : Hot → Bool) : ∀ l : List Hot, l.take (l.takeWhile p).length = l.takeWhile p := by
+  intro l
+  induction l with
+  | nil => rfl
+  | cons x xs ih =>
+    simp only [List.takeWhile_cons]
+    split
+    · simp [ih]
+    · simp
+
+theorem drop_len_takeWhile (p : Hot → Bool) : ∀ l : List Hot, l.drop (l.takeWhile p).length = l.dropWhile p := by
+  intro l
+  induction l with
+  | nil => rfl
+  | cons x xs ih =>
+    simp only [List.takeWhile_cons, List.dropWhile_cons]
+    split
+    · simp [ih]
+    · simp
+
+theorem dropWhile_le (v : Nat) : ∀ l : List Hot, Desc l → ∀ b ∈ l.dropWhile (fun h => h.val > v), b.val ≤ v := by
+  intro l
+  induction l with
+  | nil => intro _ b hb; simp at hb
+  | cons x xs ih =>
+    intro hd b hb
+    unfold Desc at hd
+    rw [List.pairwise_cons] at hd
+    simp only [List.dropWhile_cons] at hb
+    split at hb
+    · exact ih hd.2 b hb
+    · rename_i hx
+      simp only [decide_eq_true_eq, Nat.not_lt] at hx
+      simp only [List.mem_cons] at hb
+      rcases hb with hb | hb
+      · subst hb; exact hx
+      · have := hd.1 b hb; omega
+
+theorem takeWhile_gt (v : Nat) : ∀ (l : List Hot), ∀ a ∈ l.takeWhile (fun h => h.val > v), a.val > v := by
+  intro l
+  induction l with
+  | nil => intro a ha; simp at ha
+  | cons x xs ih =>
+    intro a ha
+    simp only [List.takeWhile_cons] at ha
+    split at ha
+    · rename_i hx
+      simp only [List.mem_cons] at ha
+      rcases ha with ha | ha
+      · subst ha; simpa using hx
+      · exact ih a ha
+    · simp at ha
+
+theorem length_takeWhile_le' (p : Hot → Bool) : ∀ l : List Hot, (l.takeWhile p).length ≤ l.length := by
+  intro l
+  induction l with
+  | nil => simp
+  | cons x xs ih =>
+    simp only [List.takeWhile_cons]
+    split
+    · simp only [List.length_cons]; omega
+    · simp
+
+/-- the slice with the key put at the search position is ordered -/
+theorem shifted_desc (data : List Hot) (key : Hot) (hd : Desc data) :
+    Desc (data.take (searchPos data key.val) ++ key :: data.drop (searchPos data key.val)) := by
+  unfold searchPos
+  rw [take_len_takeWhile, drop_len_takeWhile]
+  have hsplit : data = data.takeWhile (fun h => h.val > key.val) ++ data.dropWhile (fun h => h.val > key.val) :=
+    (List.takeWhile_append_dropWhile).symm
+  unfold Desc at hd ⊢
+  rw [hsplit, List.pairwise_append] at hd
+  rw [List.pairwise_append, List.pairwise_cons]
+  refine ⟨hd.1, ⟨fun b hb => dropWhile_le key.val data (by unfold Desc; rw [hsplit, List.pairwise_append]; exact hd) b hb, hd.2.1⟩, ?_⟩
+  intro a ha b hb
+  simp only [List.mem_cons] at hb
+  rcases hb with hb | hb
+  · subst hb; exact Nat.le_of_lt (takeWhile_gt _ data a ha)
+  · exact hd.2.2 a ha b hb
+
+/-- **The bounded insert keeps the report ordered by non-increasing heat.** -/
+theorem insert_desc (cap : Nat) (data : List Hot) (key : Hot) (hd : Desc data) : Desc (Hotkey.insert cap data key) := by
+  unfold Hotkey.insert
+  simp only
+  split
+  · split
+    · exact shifted_desc data key hd
+    · exact List.Pairwise.sublist (List.take_sublist _ _) (shifted_desc data key hd)
+  · rename_i hge
+    split
+    · -- every entry is strictly hotter than the key: it goes last
+      have hlen : (data.takeWhile (fun h => h.val > key.val)).length = data.length := by
+        unfold searchPos at hge
+        have := length_takeWhile_le' (fun h : Hot => decide (h.val > key.val)) data
+        omega
+      have hall : data.takeWhile (fun h => h.val > key.val) = data := by
+        have := take_len_takeWhile (fun h => h.val > key.val) data
+        rw [hlen, List.take_length] at this
+        exact this.symm
+      unfold Desc at hd ⊢
+      rw [List.pairwise_append]
+      refine ⟨hd, by simp, ?_⟩
+      intro a ha b hb
+      simp only [List.mem_singleton] at hb
+      subst hb
+      rw [← hall] at ha
+      exact Nat.le_of_lt (takeWhile_gt _ data a ha)
+    · exact hd
+
+/-- the bounded insert only ever lists the key or what was listed -/
+theorem insert_mem (cap : Nat) (data : List Hot) (key x : Hot) (hx : x ∈ Hotkey.insert cap data key) : x = key ∨ x ∈ data := by
+  unfold Hotkey.insert at hx
+  simp only at hx
+  have hsh : ∀ y, y ∈ data.take (searchPos data key.val) ++ key :: data.drop (searchPos data key.val) → y = key ∨ y ∈ data := by
+    intro y hy
+    simp only [List.mem_append, List.mem_cons] at hy
+    rcases hy with hy | hy | hy
+    · exact Or.inr (List.mem_of_mem_take hy)
+    · exact Or.inl hy
+    · exact Or.inr (List.mem_of_mem_drop hy)
+  split at hx
+  · split at hx
+    · exact hsh x hx
+    · exact hsh x (List.mem_of_mem_take hx)
+  · split at hx
+    · simp only [List.mem_append, List.mem_singleton] at hx
+      rcases hx with hx | hx
+      · exact Or.inr hx
+      · exact Or.inl hx
+    · exact Or.inr hx
+
+def names (l : List Hot) : List Nat := l.map (·.name)
+
+/-- the bounded insert never lists a name twice when the key's name is new -/
+theorem insert_names_nodup (cap : Nat) (data : List Hot) (key : Hot) (hn : (names data).Nodup)
+    (hnew : key.name ∉ names data) : (names (Hotkey.insert cap data key)).Nodup := by
+  have hsh : (names (data.take (searchPos data key.val) ++ key :: data.drop (searchPos data key.val))).Nodup := by
+    have hperm : (data.take (searchPos data key.val) ++ key :: data.drop (searchPos data key.val)).Perm (key :: data) := by
+      have : (data.take (searchPos data key.val) ++ key :: data.drop (searchPos data key.val)).Perm
+          (key :: (data.take (searchPos data key.val) ++ data.drop (searchPos data key.val))) := List.perm_middle
+      rw [List.take_append_drop] at this
+      exact this
+    unfold names
+    rw [(hperm.map _).nodup_iff]
+    simp only [List.map_cons, List.nodup_cons]
+    exact ⟨hnew, hn⟩
+  unfold Hotkey.insert
+  simp only
+  split
+  · split
+    · exact hsh
+    · unfold names at hsh ⊢
+      exact List.Nodup.sublist ((List.take_sublist _ _).map _) hsh
+  · split
+    · unfold names at hn hnew ⊢
+      rw [List.map_append, List.nodup_append]
+      refine ⟨hn, by simp, ?_⟩
+      intro a ha b hb
+      simp only [List.map_cons, List.map_nil, List.mem_singleton] at hb
+      subst hb
+      intro e; subst e; exact hnew ha
+    · exact hn
+
+
+/-! ### the report over any number of collection periods -/
+
+theorem collect_fold (cap : Nat) (P : List Hot → Prop) (hP : ∀ acc key, P acc → P (Hotkey.insert cap acc key)) :
+    ∀ (keys acc : List Hot), P acc → P (keys.foldl (Hotkey.insert cap) acc) := by
+  intro keys
+  induction keys with
+  | nil => intro acc h; exact h
+  | cons k ks ih => intro acc h; exact ih _ (hP acc k h)
+
+/-- a collection orders the report by non-increasing heat, whatever the counters' values -/
+theorem collect_desc (cap : Nat) (ins : List Hot) : Desc (ins.foldl (Hotkey.insert cap) []) :=
+  collect_fold cap Desc (fun acc key h => insert_desc cap acc key h) ins [] (by simp [Desc])
+
+theorem collect_mem (cap : Nat) (ins : List Hot) : ∀ (acc : List Hot) (x : Hot),
+    x ∈ ins.foldl (Hotkey.insert cap) acc → x ∈ acc ∨ x ∈ ins := by
+  induction ins with
+  | nil => intro acc x hx; exact Or.inl hx
+  | cons k ks ih =>
+    intro acc x hx
+    rcases ih _ x hx with h | h
+    · rcases insert_mem cap acc k x h with e | e
+      · subst e; right; simp
+      · left; exact e
+    · right; simp [h]
+
+/-- a collection never lists a name twice: every name is inserted once (the names come out of maps) -/
+theorem collect_names_nodup (cap : Nat) : ∀ (ins acc : List Hot), (names (acc ++ ins)).Nodup →
+    (names (ins.foldl (Hotkey.insert cap) acc)).Nodup := by
+  intro ins
+  induction ins with
+  | nil => intro acc h; simpa using h
+  | cons k ks ih =>
+    intro acc h
+    simp only [List.foldl_cons]
+    apply ih
+    unfold names at h ⊢
+    simp only [List.map_append, List.map_cons] at h ⊢
+    rw [List.nodup_append] at h ⊢
+    obtain ⟨h1, h2, h3⟩ := h
+    rw [List.nodup_cons] at h2
+    have hknew : k.name ∉ List.map (·.name) acc := fun e => h3 _ e _ (by simp) rfl
+    refine ⟨insert_names_nodup cap acc k h1 hknew, h2.2, ?_⟩
+    intro a ha b hb
+    simp only [List.mem_map] at ha
+    obtain ⟨x, hx, hxa⟩ := ha
+    rcases insert_mem cap acc k x hx with e | e
+    · subst e; subst hxa; intro e2; subst e2; exact h2.1 hb
+    · exact h3 a (by simp only [List.mem_map]; exact ⟨x, e, hxa⟩) b (by simp [hb])
+
+theorem insertDesc_perm (h : Hot) (l : List Hot) : (insertDesc h l).Perm (h :: l) := by
+  induction l with
+  | nil => simp [insertDesc]
+  | cons x xs ih =>
+    simp only [insertDesc]
+    split
+    · exact (List.Perm.cons x ih).trans (List.Perm.swap h x xs)
+    · exact List.Perm.refl _
+
+theorem sortDesc_perm (l : List Hot) : (sortDesc l).Perm l := by
+  induction l with
+  | nil => simp [sortDesc]
+  | cons x xs ih => exact (insertDesc_perm x _).trans (List.Perm.cons x ih)
+
+theorem names_halveStale (now : Int) (data : List Hot) : names (halveStale now data) = names data := by
+  unfold names halveStale
+  rw [List.map_map]
+  apply List.map_congr_left
+  intro h _
+  simp only [Function.comp]
+  split <;> rfl
+
+/-- stale eviction lists only names that were listed, none twice -/
+theorem evictStale_names (now : Int) (data : List Hot) (hn : (names data).Nodup) :
+    (names (evictStale now data)).Nodup ∧ ∀ n ∈ names (evictStale now data), n ∈ names data := by
+  unfold evictStale
+  have hp := (sortDesc_perm ((halveStale now data).filter (fun h => h.val != 0))).map (·.name)
+  have hsub : ((halveStale now data).filter (fun h => h.val != 0)).map (·.name) |>.Sublist (names data) := by
+    rw [← names_halveStale now data]
+    exact (List.filter_sublist).map _
+  constructor
+  · unfold names
+    rw [hp.nodup_iff]
+    exact List.Nodup.sublist hsub hn
+  · intro n hn'
+    unfold names at hn'
+    exact hsub.subset (hp.subset hn')
+
+theorem evictStale_length (now : Int) (data : List Hot) : (evictStale now data).length ≤ data.length := by
+  unfold evictStale
+  rw [(sortDesc_perm _).length_eq]
+  have : (halveStale now data).length = data.length := by simp [halveStale]
+  rw [← this]
+  exact List.length_filter_le _ _
+
+/-- reports reachable over any number of periods: a collection inserts, in any order, entries with
+pairwise different names, each either a listed name or a name accessed in the period (`acc`: every
+name ever accessed); a stale eviction at any minute -/
+inductive Report (cap : Nat) (acc : List Nat) : List Hot → Prop
+  | init : Report cap acc []
+  | collect {keys : List Hot} (ins : List Hot) (hn : (names ins).Nodup)
+      (hacc : ∀ h ∈ ins, h.name ∈ names keys ∨ h.name ∈ acc) :
+      Report cap acc keys → Report cap acc (ins.foldl (Hotkey.insert cap) [])
+  | evict {keys : List Hot} (now : Int) : Report cap acc keys → Report cap acc (evictStale now keys)
+
+/-- **The HOTKEY report is well formed after every history of collections and evictions**: never
+more keys than the capacity, no key twice, ordered by non-increasing heat, only keys that were
+accessed — whatever values the probabilistic counters took and in whatever order the maps were
+iterated. -/
+theorem report_well_formed (cap : Nat) (acc : List Nat) (keys : List Hot) (h : Report cap acc keys) :
+    keys.length ≤ cap ∧ (names keys).Nodup ∧ Desc keys ∧ ∀ n ∈ names keys, n ∈ acc := by
+  induction h with
+  | init => simp [names, Desc]
+  | collect ins hn hacc _ ih =>
+    refine ⟨collect_length_le cap ins, collect_names_nodup cap ins [] (by simpa using hn), collect_desc cap ins, ?_⟩
+    intro n hn'
+    unfold names at hn'
+    simp only [List.mem_map] at hn'
+    obtain ⟨x, hx, hxn⟩ := hn'
+    rcases collect_mem cap ins [] x hx with e | e
+    · simp at e
+    · rcases hacc x e with h1 | h1
+      · subst hxn; exact ih.2.2.2 _ h1
+      · subst hxn; exact h1
+  | evict now _ ih =>
+    have := evictStale_names now _ ih.2.1
+    exact ⟨Nat.le_trans (evictStale_length now _) ih.1, this.1, evictStale_desc now _, fun n hn' => ih.2.2.2 n (this.2 n hn')⟩
+
+/-- not vacuous: capacity 2, three periods -/
+example : Report 2 [1, 2, 3] [⟨3, 9, 5⟩, ⟨1, 2, 6⟩] := by
+  have h1 : Report 2 [1, 2, 3] ([⟨1, 5, 5⟩, ⟨2, 7, 5⟩].foldl (Hotkey.insert 2) []) :=
+    Report.collect _ (by decide) (by decide) Report.init
+  have h2 := Report.collect (cap := 2) (acc := [1, 2, 3]) [⟨2, 7, 5⟩, ⟨3, 9, 5⟩, ⟨1, 5, 5⟩] (by decide) (by decide) h1
+  have h3 := Report.evict (cap := 2) (acc := [1, 2, 3]) 6 h2
+  have h4 := Report.collect (cap := 2) (acc := [1, 2, 3]) [⟨1, 2, 6⟩, ⟨3, 9, 5⟩] (by decide) (by decide) h3
+  exact h4
+
 /-! Non-vacuity -/
 example : run { cap := 2, nodes := [] } [.incr 1, .incr 2, .incr 2, .incr 3, .incr 3, .incr 3, .latch, .incr 4]
     = some { cap := 2, nodes := [(1, [4])] } := by decide
 example : (run { cap := 2, nodes := [] } [.incr 1, .incr 2, .incr 2, .incr 3]).map (·.nodes) = some [(1, [3]), (2, [2])] := by decide
+
+/-- **The code the model was written against.** The statements of the modelled functions,
+regenerated from the current source on every run, are the ones the model was written against;
+any edit to one of them makes this obligation fail and starts a search for a failing input. -/
+theorem code_matches_model :
+    Gen.Hotkey.incr =
+      ["c.mu.Lock()",
+      "item, ok := c.items[key]",
+      "if ok { c.increment(item) c.mu.Unlock() return }",
+      "if uint8(len(c.items)) >= c.capacity { c.evict() }",
+      "item = &itemNode{key: key}",
+      "c.add(item)",
+      "c.mu.Unlock()"] ∧
+    Gen.Hotkey.latch =
+      ["c.mu.Lock()",
+      "res := make(map[string]uint64, len(c.items))",
+      "for key, item := range c.items { res[key] = item.freqNode.freq }",
+      "c.reset()",
+      "c.mu.Unlock()",
+      "return res"] ∧
+    Gen.Hotkey.reset =
+      ["c.items = make(map[string]*itemNode)",
+      "c.freqHead = nil"] ∧
+    Gen.Hotkey.increment =
+      ["curFreqNode := item.freqNode",
+      "curFreq := curFreqNode.freq",
+      "var targetFreqNode *freqNode",
+      "if curFreqNode.next == nil || curFreqNode.next.freq != curFreq+1 { targetFreqNode = &freqNode{freq: curFreq + 1} curFreqNode.InsertAfterMe(targetFreqNode) } else { targetFreqNode = curFreqNode.next }",
+      "item.Free()",
+      "targetFreqNode.AppendItem(item)",
+      "if curFreqNode.itemHead != nil { return }",
+      "if c.freqHead == curFreqNode { c.freqHead = targetFreqNode }",
+      "curFreqNode.Free()"] ∧
+    Gen.Hotkey.add =
+      ["c.items[item.key] = item",
+      "if c.freqHead != nil && c.freqHead.freq == 1 { c.freqHead.AppendItem(item) return }",
+      "fnode := &freqNode{freq: 1}",
+      "fnode.AppendItem(item)",
+      "if c.freqHead != nil { c.freqHead.InsertBeforeMe(fnode) }",
+      "c.freqHead = fnode"] ∧
+    Gen.Hotkey.evict =
+      ["fnode := c.freqHead",
+      "item := fnode.itemHead",
+      "delete(c.items, item.key)",
+      "fnode.PopItem()",
+      "if fnode.itemHead != nil { return }",
+      "c.freqHead = fnode.next",
+      "fnode.Free()"] ∧
+    Gen.Hotkey.popItem =
+      ["if n.itemHead == nil { return nil }",
+      "if n.itemHead == n.itemTail { item := n.itemHead n.itemHead = nil n.itemTail = nil return item }",
+      "item := n.itemHead",
+      "item.next.prev = nil",
+      "n.itemHead = item.next",
+      "return item"] ∧
+    Gen.Hotkey.appendItem =
+      ["item.freqNode = n",
+      "if n.itemHead == nil { n.itemHead = item n.itemTail = item return }",
+      "item.prev = n.itemTail",
+      "item.next = nil",
+      "n.itemTail.next = item",
+      "n.itemTail = item"] ∧
+    Gen.Hotkey.insert =
+      ["l := len(s.data)",
+      "i := sort.Search(l, func(i int) bool { return s.data[i].Counter.Value() <= key.Counter.Value() })",
+      "if uint8(l) < s.capacity { s.data = append(s.data, key) success = true }",
+      "if i < l { copy(s.data[i+1:], s.data[i:]) s.data[i] = key success = true }",
+      "return"] ∧
+    Gen.Hotkey.collect =
+      ["c.rwmu.RLock()",
+      "accessedKeyNames := make(map[string]uint64)",
+      "for _, counter := range c.counters { for key, hitCount := range counter.Latch() { accessedKeyNames[key] += hitCount } }",
+      "c.rwmu.RUnlock()",
+      "if len(accessedKeyNames) == 0 { return }",
+      "c.rwmu.RLock()",
+      "curHotKeys := make(map[string]*logrithmCounter, len(c.keys))",
+      "for _, key := range c.keys { curHotKeys[key.Name] = key.Counter }",
+      "c.rwmu.RUnlock()",
+      "res := newSortedHotKeys(c.capacity)",
+      "for keyName, cur := range curHotKeys { visits := accessedKeyNames[keyName] counter := new(logrithmCounter) *counter = *cur counter.ReaptIncr(visits) key := HotKey{Name: keyName, Counter: counter} res.Insert(key) delete(accessedKeyNames, keyName) }",
+      "for keyName, hitCount := range accessedKeyNames { counter := new(logrithmCounter) counter.ReaptIncr(hitCount) key := HotKey{Name: keyName, Counter: counter} res.Insert(key) }",
+      "c.rwmu.Lock()",
+      "c.keys = res.Data()",
+      "c.rwmu.Unlock()"] ∧
+    Gen.Hotkey.evictStale =
+      ["c.rwmu.Lock()",
+      "defer c.rwmu.Unlock()",
+      "curTimeInMinute := nowInMinute()",
+      "halved := make([]HotKey, 0, len(c.keys))",
+      "for _, key := range c.keys { counter := new(logrithmCounter) *counter = *key.Counter if curTimeInMinute > counter.LastUpdateTimeInMinute() { counter.Halve() } halved = append(halved, HotKey{Name: key.Name, Counter: counter}) }",
+      "keys := make([]HotKey, 0, len(halved))",
+      "for _, key := range halved { if key.Counter.Value() != 0 { keys = append(keys, key) } }",
+      "sort.SliceStable(keys, func(i, j int) bool { return keys[i].Counter.Value() > keys[j].Counter.Value() })",
+      "c.keys = keys"] ∧
+    Gen.Hotkey.hotKeys =
+      ["c.rwmu.RLock()",
+      "defer c.rwmu.RUnlock()",
+      "return c.keys"] ∧
+    Gen.Hotkey.halve =
+      ["if c.val == 0 { return }",
+      "c.val = c.val >> 1",
+      "c.lut = nowInMinute()"] := by
+  refine ⟨rfl, rfl, rfl, rfl, rfl, rfl, rfl, rfl, rfl, rfl, rfl, rfl, rfl⟩
 
 end SamVerif.Props.C19
 
@@ -245,3 +651,9 @@ end SamVerif.Props.C19
 #print axioms SamVerif.Props.C19.collect_length_le
 #print axioms SamVerif.Props.C19.evictStale_desc
 #print axioms SamVerif.Props.C19.evictStaleOld_counterexample
+#print axioms SamVerif.Props.C19.code_matches_model
+#print axioms SamVerif.Props.C19.insert_desc
+#print axioms SamVerif.Props.C19.insert_mem
+#print axioms SamVerif.Props.C19.insert_names_nodup
+#print axioms SamVerif.Props.C19.evictStale_names
+#print axioms SamVerif.Props.C19.report_well_formed
